@@ -7,7 +7,7 @@ from ..cfg import DefiniteAssignment
 from ..facts import LONG, OFFD
 from ..fphazard import Hazard, functions_with_exp, plain
 from ..libsum import lib_func, return_arity
-from ..model import dotted_name, src, DEAD_MODULES
+from ..model import dotted_name, src, DEAD_MODULES, member_kind as member_kind_
 from ..report import AnalysisError, Where
 from . import C01, C02, C11
 
@@ -502,7 +502,7 @@ def r_wellformed(ctx, model):
                             if isinstance(x, ast.Name):
                                 defined.add(x.id)
                 for q2, g in model.mods[cm].funcs.items():
-                    if not q2.startswith(cq + ".") or not g.args.args:
+                    if not q2.startswith(cq + ".") or not g.args.args or member_kind_(g) in ("staticmethod", "classmethod"):
                         continue
                     sn = g.args.args[0].arg
                     for x in ast.walk(g):
